@@ -23,7 +23,18 @@ pub fn expectation<K: Fam>(cx: &StepCx<K>, fault_pending: bool) -> Option<Expect
     let signer = cx.signer()?;
     let mcx = model::Ctx { fam: signer.fam, signer_pk: &signer.pk, fault_pending };
     match (cx.op, &cx.h.init) {
-        (None, Init::Builder { calls }) | (None, Init::BuilderReuse { calls, .. }) => Some(model::expect_build(&mcx, calls)),
+        (None, Init::Builder { calls }) => Some(model::expect_build(&mcx, calls)),
+        (None, Init::BuilderReuse { calls, first }) => {
+            // the first build leaves its signer's key entry in the builder; it only survives the second
+            // build when that key belongs to the other scheme (cross-scheme CombinedKey)
+            let mut calls = calls.clone();
+            if let Some(f) = cx.keys.get(*first) {
+                if f.fam.scheme() != signer.fam.scheme() {
+                    calls.push(BCall::AddValue { key: f.fam.scheme().key_name().to_vec(), val: TVal::Bytes(f.pk.clone()) });
+                }
+            }
+            Some(model::expect_build(&mcx, &calls))
+        }
         (None, Init::Decoded { .. }) => None,
         (Some(op), _) => {
             let pks: Vec<Vec<u8>> = cx.keys.iter().map(|k| k.pk.clone()).collect();
